@@ -106,6 +106,11 @@ pub struct ClassRefInfo {
     /// positional arguments: (first byte, parameter name)
     pub positional: Vec<(usize, String)>,
     pub is_multiclass: bool,
+    /// range of `<…>` (None when written without an argument list)
+    pub args_range: Option<(usize, usize)>,
+    /// number of parameters without default / total number of parameters
+    pub required: usize,
+    pub params: usize,
 }
 
 #[derive(Clone, Debug)]
@@ -144,6 +149,10 @@ pub struct Program {
     pub feat: Features,
     /// (file, range, feature name) of the less common constructs, innermost last
     pub spans: Vec<(usize, (usize, usize), &'static str)>,
+    /// values written where a declared type is known: (file, range, type, context)
+    pub typed_sites: Vec<(usize, (usize, usize), Ty, &'static str)>,
+    /// bang operator applications: (file, operator, position of ")", number of operands, start)
+    pub bang_sites: Vec<(usize, String, usize, usize, usize)>,
 }
 
 #[derive(Clone, Debug)]
@@ -800,6 +809,7 @@ impl<'a> Sem<'a> {
 
     fn bang(&mut self, op: &str, args: &[Ty], depth: usize) {
         self.p.feat.bang_ops += 1;
+        let op_start = self.here();
         self.w(op);
         self.w("(");
         for (i, t) in args.iter().enumerate() {
@@ -808,7 +818,9 @@ impl<'a> Sem<'a> {
             }
             self.value(t, depth + 1);
         }
+        let close = self.here();
         self.w(")");
+        self.p.bang_sites.push((self.cur, op.to_string(), close, args.len(), op_start));
     }
 
     /// a list<int> value that can take a `[0]` suffix: a visible variable or a literal list
@@ -958,9 +970,10 @@ impl<'a> Sem<'a> {
         let npos = if ci.targs.is_empty() { 0 } else { required + self.rng.below(ci.targs.len() - required + 1) };
         let mut positional = Vec::new();
         if npos == 0 && !force_angle {
-            self.p.classrefs.push(ClassRefInfo { file: self.cur, name_range, class_decl: ci.decl, positional, is_multiclass: false });
+            self.p.classrefs.push(ClassRefInfo { file: self.cur, name_range, class_decl: ci.decl, positional, is_multiclass: false, args_range: None, required, params: ci.targs.len() });
             return;
         }
+        let a0 = self.here();
         self.w("<");
         for i in 0..npos {
             if i > 0 {
@@ -968,10 +981,14 @@ impl<'a> Sem<'a> {
             }
             positional.push((self.here(), ci.targs[i].0.clone()));
             let t = ci.targs[i].1.clone();
+            let v0 = self.here();
             self.value(&t, depth + 1);
+            let r = (v0, self.here());
+            self.p.typed_sites.push((self.cur, r, t, "template-arg"));
         }
         self.w(">");
-        self.p.classrefs.push(ClassRefInfo { file: self.cur, name_range, class_decl: ci.decl, positional, is_multiclass: false });
+        let ar = Some((a0, self.here()));
+        self.p.classrefs.push(ClassRefInfo { file: self.cur, name_range, class_decl: ci.decl, positional, is_multiclass: false, args_range: ar, required, params: ci.targs.len() });
     }
 
     // ---- declarations ------------------------------------------------------------------------
@@ -1092,8 +1109,13 @@ impl<'a> Sem<'a> {
                     if init {
                         self.w(" = ");
                         self.wrote_unset = false;
+                        let v0 = self.here();
                         self.value(&ty, 0);
+                        let r = (v0, self.here());
                         init = !self.wrote_unset;
+                        if init {
+                            self.p.typed_sites.push((self.cur, r, ty.clone(), "field-init"));
+                        }
                     }
                     self.w(";");
                     fields.insert(name.clone(), (ty.clone(), d));
@@ -1119,7 +1141,13 @@ impl<'a> Sem<'a> {
                     let saved = self.rec_fields.clone();
                     // … and every field declared after it (a later field may depend on it: evaluation cycle)
                     self.rec_fields.retain(|f| f.0 != n && f.2 < d);
+                    let v0 = self.here();
+                    self.wrote_unset = false;
                     self.value(&ty, 0);
+                    let r = (v0, self.here());
+                    if !self.wrote_unset {
+                        self.p.typed_sites.push((self.cur, r, ty.clone(), "let-value"));
+                    }
                     self.rec_fields = saved;
                     self.w(";");
                 }
@@ -1521,7 +1549,9 @@ impl<'a> Sem<'a> {
         let required = m.targs.iter().take_while(|t| !t.2).count();
         let npos = if m.targs.is_empty() { 0 } else { required + self.rng.below(m.targs.len() - required + 1) };
         let mut positional = Vec::new();
+        let mut ar = None;
         if npos > 0 {
+            let a0 = self.here();
             self.w("<");
             for i in 0..npos {
                 if i > 0 {
@@ -1529,11 +1559,15 @@ impl<'a> Sem<'a> {
                 }
                 positional.push((self.here(), m.targs[i].0.clone()));
                 let t = m.targs[i].1.clone();
+                let v0 = self.here();
                 self.value(&t, 2);
+                let r = (v0, self.here());
+                self.p.typed_sites.push((self.cur, r, t, "template-arg"));
             }
             self.w(">");
+            ar = Some((a0, self.here()));
         }
-        self.p.classrefs.push(ClassRefInfo { file: self.cur, name_range, class_decl: m.decl, positional, is_multiclass: true });
+        self.p.classrefs.push(ClassRefInfo { file: self.cur, name_range, class_decl: m.decl, positional, is_multiclass: true, args_range: ar, required, params: m.targs.len() });
     }
 
     fn defm_stmt(&mut self) {
